@@ -111,6 +111,32 @@ func (m *ruleModel) recompute() {
 	}
 	m.active = all
 	m.changes++
+	m.runLists()
+}
+
+// configEdit: a parameter of the rule or of one of its conditions was changed while it runs.  The rule re-evaluates its
+// schedule conditions at that instant and then runs the action list of the state it is in (once, whether or not the
+// state changed).
+func (m *ruleModel) configEdit(t time.Time) {
+	for i, sp := range m.sched {
+		m.condActive[i] = sp.active(t)
+	}
+	all := true
+	for _, a := range m.condActive {
+		if !a {
+			all = false
+		}
+	}
+	if all != m.active {
+		m.active = all
+		m.changes++
+	}
+	m.runLists()
+}
+
+// runLists: the list of the current state runs once, the opposite list is marked inactive.
+func (m *ruleModel) runLists() {
+	all := m.active
 	run, other := m.acts, m.inacts
 	if !all {
 		run, other = m.inacts, m.acts
@@ -398,6 +424,7 @@ func runC13(s *Sim) {
 	// two boundaries after the workload, with nothing in flight.  A tick also presents a trigger point (no type, no key,
 	// the rule's id) to the point conditions, so in these runs every point condition filters on a type.
 	var sched *schedSpec
+	schedIdx, editPhase := 0, false
 	if wl.Chance(1, 4) {
 		// no feedback in these runs: a rule that writes into its own scope may oscillate for ever once a tick has set it
 		// off, and the clock moves below have no step cap
@@ -439,7 +466,8 @@ func runC13(s *Sim) {
 				s.Call(func() { sendType(s, setup, cc) })
 			}
 		}
-		model.sched = map[int]schedSpec{len(model.conds): sp}
+		schedIdx = len(model.conds)
+		model.sched = map[int]schedSpec{schedIdx: sp}
 		model.conds = append(model.conds, c)
 		model.condActive = append(model.condActive, false)
 		s.Call(func() { sendType(s, setup, c) })
@@ -449,7 +477,8 @@ func runC13(s *Sim) {
 				return
 			}
 			for _, p := range w.Pts {
-				if p.Type == data.PointTypeActive {
+				sp := model.sched[schedIdx]
+				if p.Type == data.PointTypeActive && !editPhase {
 					// the rule has just evaluated its schedule (this point is the first thing it publishes when the
 					// condition flips): the model follows at this position of the stream, before whatever the flip causes
 					model.evalSched(p.Time)
@@ -606,6 +635,42 @@ func runC13(s *Sim) {
 			}
 			h.compare(true)
 			s.Probe("schedule: boundary crossed")
+		}
+		if s.Failed() {
+			return
+		}
+		// the weekday filter of the running rule's schedule condition is edited (one batch, as the UI sends it), once or
+		// twice, with nothing in flight: the rule has to judge the trigger time against the window as it is configured now
+		nEdits := wl.Draw(3)
+		for j := 0; j < nEdits && !s.Failed(); j++ {
+			editPhase = true
+			sp := model.sched[schedIdx]
+			sp.AnyWeekday = true
+			var pts data.Points
+			for d := 0; d < 7; d++ {
+				sp.Weekdays[d] = wl.Chance(1, 2)
+				pts = append(pts, data.Point{Type: data.PointTypeWeekday, Key: fmt.Sprint(d), Value: data.BoolToFloat(sp.Weekdays[d]), Time: time.Now().Add(time.Duration(d)), Origin: "web"})
+			}
+			sp.AnyWeekday = false // no day ticked = no weekday filter
+			for d := 0; d < 7; d++ {
+				sp.AnyWeekday = sp.AnyWeekday || sp.Weekdays[d]
+			}
+			model.sched[schedIdx] = sp
+			model.conds[schedIdx].Weekdays = sp.Weekdays[:]
+			s.Call(func() {
+				if err := client.SendNodePoints(setup, "s1", pts, true); err != nil {
+					s.Fail("C13", "harness", "edit weekdays: %v", err)
+				}
+			})
+			s.AdvanceIdle(12 * time.Second)
+			model.configEdit(time.Now())
+			editPhase = false
+			tr.CheckState(true)
+			if s.Failed() {
+				return
+			}
+			h.compare(true)
+			s.Probe("schedule: weekdays edited while the rule runs")
 		}
 		if s.Failed() {
 			return
